@@ -1,0 +1,42 @@
+//go:build verif
+
+package litefs
+
+import (
+	"context"
+	"io"
+)
+
+// Verification hooks (build tag "verif" only; see /verif/DESIGN.md section 7).
+
+// VerifCrashPoint, if set, is called at the entry of the internal page-write and
+// file-truncate helpers so that a harness can snapshot the data directory there.
+var VerifCrashPoint func(op string)
+
+func verifCrashPoint(op string) {
+	if fn := VerifCrashPoint; fn != nil {
+		fn(op)
+	}
+}
+
+// VerifProcessLTXStreamFrame exposes the replica-side handling of one LTX stream frame.
+func (s *Store) VerifProcessLTXStreamFrame(ctx context.Context, frame *LTXStreamFrame, src io.Reader) error {
+	return s.processLTXStreamFrame(ctx, frame, src)
+}
+
+// VerifSetLockHook installs fn as the state-change callback of the database's twelve locks.
+// Must be called before the locks are used.
+func (db *DB) VerifSetLockHook(fn func(lockType LockType, prev, next RWMutexState)) {
+	for _, e := range []struct {
+		t  LockType
+		mu *RWMutex
+	}{
+		{LockTypePending, &db.pendingLock}, {LockTypeShared, &db.sharedLock}, {LockTypeReserved, &db.reservedLock},
+		{LockTypeWrite, &db.writeLock}, {LockTypeCkpt, &db.ckptLock}, {LockTypeRecover, &db.recoverLock},
+		{LockTypeRead0, &db.read0Lock}, {LockTypeRead1, &db.read1Lock}, {LockTypeRead2, &db.read2Lock},
+		{LockTypeRead3, &db.read3Lock}, {LockTypeRead4, &db.read4Lock}, {LockTypeDMS, &db.dmsLock},
+	} {
+		t := e.t
+		e.mu.OnLockStateChange = func(prev, next RWMutexState) { fn(t, prev, next) }
+	}
+}
